@@ -27,9 +27,9 @@ TECHNIQUE = ("model-based testing of operation histories on a fresh POXCore: all
              "fixed pool + Hypothesis-drawn histories, real core run single-threaded under a virtual clock in lock-step with an "
              "independent rendezvous/lifecycle monitor")
 LEVEL_TEXT = ("Exploration by generated histories: every ordered selection of up to 4 (quick) / 5 (thorough) distinct operations "
-              "from a pool of 16 (registrations in both naming forms and of an object whose truth value is False, declarations with plain / registering / failing callbacks, "
+              "from a pool of 17 (registrations in both naming forms and of an object whose truth value is False, declarations with plain / registering / failing callbacks, "
               "listen_to_dependencies, GoingUp listeners that hold or immediately release a deferral, goUp, release, a second "
-              "release of an already released deferral, quit, a GoingDown listener that calls quit again from inside the delivery) is run "
+              "release of an already released deferral, quit, a GoingDown listener that calls quit again from inside the delivery, a high-priority ComponentRegistered listener that halts the event) is run "
               "on a fresh POXCore, plus Hypothesis-drawn histories with nested operations inside callbacks and GoingUp handlers; "
               "each is judged by a monitor restating the property (exactly once, never early by the registry contents at call "
               "time, fired by the time the completing call returns, listener wiring counted by raising every component event, "
@@ -49,21 +49,23 @@ ASSUMPTIONS = [
   "quit() before goUp takes effect when its worker next runs after goUp has begun; the worker is run between history operations",
   "a deferral may be released again after it has been released (immediately, later, inside GoingUp delivery, after Up): being refused with RuntimeError and being silently ignored are both accepted, only the lifecycle afterwards is judged",
   "goUp is called at most once; GoingUp handlers do not raise",
+  "the dependency argument of call_when_ready is a str or any iterable of names the unchanged tree accepts: list, tuple, set, frozenset, generator, map object, dict view, dict",
+  "other parties may listen to core's ComponentRegistered at any priority and return None, halt the event or raise; the rendezvous must be unaffected",
   "a waiter's callback is any callable: function, lambda, bound method, functools.partial of either, instance with __call__, builtin bound method (list.append; never fails, its firing is read off the list after the API call), partial of a failing builtin (its own firing is not observable; only containment and the other waiters are judged)",
   "registered components are arbitrary objects, including ones whose truth value is False (empty table-like objects)",
   "quit() may be called again from inside a GoingDown or Down handler (same thread); it must not start a second shutdown",
   "the order of UpEvent relative to GoingDownEvent/DownEvent (quit while a deferral is outstanding) is not judged",
 ]
 EXHAUSTIVE_SCOPE = {
-  "quick": "all ordered selections without repetition of 1..4 operations from the fixed 16-operation pool (47 296 histories)",
-  "thorough": "all ordered selections without repetition of 1..5 operations from the fixed 16-operation pool (571 456 histories)",
+  "quick": "all ordered selections without repetition of 1..4 operations from the fixed 17-operation pool (61 489 histories)",
+  "thorough": "all ordered selections without repetition of 1..5 operations from the fixed 17-operation pool (804 049 histories)",
 }
 
 NAMES = ["a", "b", "c", "x", "x_y"]
 EVS = ["EvP", "EvQ"]
 COMP_EVENTS = {"a": [0, 1], "b": [0], "c": None, "x": [1], "x_y": [0, 1]}
 REG_HOW = ["name", "new", "single", "corename_new", "corename_single", "falsy", "falsy_new"]
-CWR_FORMS = ["list", "tuple", "set", "str"]
+CWR_FORMS = ["list", "tuple", "set", "str", "frozenset", "gen", "map", "keys", "dict"]
 ARG_MODES = ["id", "none", "kw"]
 ATTR_MODES = ["attrs", "short", "none"]
 # what kind of callable a waiter's callback is
@@ -525,6 +527,8 @@ class RT(object):
       self.op_gup(op)
     elif k == "gdl":
       self.op_gdl(op)
+    elif k == "crl":
+      self.op_crl(op)
     elif k == "goup":
       self.op_goup()
     elif k == "quit":
@@ -638,7 +642,13 @@ class RT(object):
     form = op.get("form", "list")
     if form == "str" and len(deps) != 1:
       form = "list"
-    comps = {"list": list(deps), "tuple": tuple(deps), "set": set(deps), "str": deps[0] if deps else None}[form]
+    if form not in CWR_FORMS:
+      raise HarnessError("unknown dependency container %r" % (form,))
+    comps = {
+      "list": list(deps), "tuple": tuple(deps), "set": set(deps), "str": deps[0] if deps else None,
+      "frozenset": frozenset(deps), "gen": (n for n in list(deps)), "map": map(str, list(deps)),
+      "keys": dict.fromkeys(deps).keys(), "dict": dict.fromkeys(deps),
+    }[form]
     arg = op.get("arg", "id")
     kind = self.kind(w)
     if kind == "builtin":
@@ -777,6 +787,24 @@ class RT(object):
         raise
     self.core.addListener(PC.GoingDownEvent if ev == 0 else PC.DownEvent, h, priority=op.get("p", 0))
     self.flag("goingdown-listener" if ev == 0 else "down-listener")
+
+  def op_crl(self, op):
+    """Subscribe somebody else's listener to core's ComponentRegistered: it returns None, halts the event
+    or raises.  None of that is the rendezvous' business."""
+    PC, RE = self.P["PC"], self.P["RE"]
+    ret = op.get("ret", "none")
+
+    def h(event):
+      self.flag("component-registered-listener-ran")
+      if ret == "halt":
+        self.flag("component-registered-event-halted")
+        return RE.EventHalt
+      if ret == "raise":
+        self.flag("component-registered-listener-raised")
+        raise CbBoom("ComponentRegistered listener")
+      return None
+    self.core.addListener(PC.ComponentRegistered, h, priority=op.get("p", 0))
+    self.flag("component-registered-listener")
 
   def op_goup(self):
     if self.goup_called:
@@ -955,8 +983,8 @@ def _pool_case(seq):
     {"op": "reg", "n": B, "how": "new"},
     {"op": "cwr", "w": 0, "deps": [A], "form": "list", "arg": "id"},
     {"op": "cwr", "w": 1, "deps": [A], "form": "str", "arg": "kw"},
-    {"op": "cwr", "w": 2, "deps": [B], "form": "tuple", "arg": "id", "name": "explicit"},
-    {"op": "cwr", "w": 0, "deps": [A, B], "form": "set", "arg": "none"},
+    {"op": "cwr", "w": 2, "deps": [B], "form": "gen", "arg": "id", "name": "explicit"},
+    {"op": "cwr", "w": 0, "deps": [A, B], "form": "frozenset", "arg": "none"},
     {"op": "ltd", "k": 0, "extra": [], "attrs": "attrs"},
     {"op": "gup", "g": 0, "p": 0},
     {"op": "gup", "g": 1, "p": 0},
@@ -967,11 +995,12 @@ def _pool_case(seq):
     {"op": "cwr", "w": 3, "deps": [], "form": "set", "arg": "id", "name": "explicit"},
     {"op": "rel2", "k": 0},
     {"op": "gdl", "ev": 0, "p": 0},
+    {"op": "crl", "p": 5, "ret": "halt"},
   ]
   return {"waiters": waiters, "sinks": sinks, "gups": gups, "ops": [pool[i] for i in seq]}
 
 
-POOL_SIZE = 16
+POOL_SIZE = 17
 
 
 def _enum(maxlen):
@@ -989,11 +1018,11 @@ def _s_ops(kind):
   deps = some
   reg = st.fixed_dictionaries({"op": st.just("reg"), "n": st.sampled_from([0, 0, 0, 1, 1, 1, 2, 3, 4]), "how": st.sampled_from(REG_HOW[:2] * 2 + REG_HOW + ["falsy"])})
   cwr = st.fixed_dictionaries({"op": st.just("cwr"), "w": st.integers(0, 4), "deps": deps,
-                               "form": st.sampled_from(["list", "list", "set", "set", "str", "tuple"]),
+                               "form": st.sampled_from(["list", "list", "set", "str", "tuple"] + CWR_FORMS),
                                "arg": st.sampled_from(["id", "kw", "none", "none"]),
                                "name": st.sampled_from(["explicit"] * 5 + ["default"])})
   cwr0 = st.fixed_dictionaries({"op": st.just("cwr"), "w": st.integers(0, 4), "deps": st.just([]),
-                                "form": st.sampled_from(["set", "list", "tuple"]),
+                                "form": st.sampled_from(["set", "list", "tuple", "frozenset", "gen", "keys", "dict"]),
                                 "arg": st.sampled_from(["id", "none"]), "name": st.just("explicit")})
   ltd = st.fixed_dictionaries({"op": st.just("ltd"), "k": st.integers(0, 2), "extra": st.lists(name, max_size=2),
                                "attrs": st.sampled_from(ATTR_MODES), "extra_form": st.sampled_from(["list", "none", "str"])})
@@ -1002,14 +1031,15 @@ def _s_ops(kind):
   if kind == "nested":
     return st.one_of(reg, reg, reg, reg, cwr, cwr, rel, rel, ltd, ltd, cwr0, rel2)
   gup = st.fixed_dictionaries({"op": st.just("gup"), "g": st.integers(0, 2), "p": st.sampled_from([0, 0, 5, -3])})
+  crl = st.fixed_dictionaries({"op": st.just("crl"), "p": st.sampled_from([5, 0, -5]), "ret": st.sampled_from(["none", "halt", "raise"])})
   gdl = st.fixed_dictionaries({"op": st.just("gdl"), "ev": st.integers(0, 1), "p": st.sampled_from([0, 0, 5, -3])})
   goup = st.just({"op": "goup"})
   quit_ = st.just({"op": "quit"})
   if kind == "pre":
-    return st.one_of(reg, reg, reg, reg, cwr, cwr, cwr, cwr, ltd, ltd, ltd, gup, gup, gup, quit_, cwr0, gdl)
+    return st.one_of(reg, reg, reg, reg, cwr, cwr, cwr, cwr, ltd, ltd, ltd, gup, gup, gup, quit_, cwr0, gdl, crl, crl)
   if kind == "post":
     return st.one_of(rel, rel, rel, rel, reg, reg, reg, reg, cwr, cwr, cwr, ltd, ltd, quit_, quit_, cwr0, rel2, rel2, gdl)
-  return st.one_of(reg, reg, reg, reg, cwr, cwr, cwr, cwr, ltd, ltd, gup, gup, goup, goup, rel, rel, quit_, quit_, cwr0, rel2, gdl)
+  return st.one_of(reg, reg, reg, reg, cwr, cwr, cwr, cwr, ltd, ltd, gup, gup, goup, goup, rel, rel, quit_, quit_, cwr0, rel2, gdl, crl)
 
 
 def _strategy(tier):
